@@ -33,6 +33,8 @@ type Engine struct {
 	typeTags    map[string]int
 	overlay     map[string][]byte // absolute path -> patched content (GOVC_OVERLAY_PATCH)
 	overlayDir  string
+	ledHash     map[string]string   // ledgered source hashes (nil while a ledger is being written)
+	ledLocals   map[string][]string // ledgered local-variable lists
 }
 
 const modPath = "github.com/bandprotocol/chain/v3"
@@ -166,9 +168,31 @@ func (e *Engine) autoInlinable(fi *FuncInfo) bool {
 	}
 	n := 0
 	ok := true
+	// predicate / comparator literals handed straight to sort.* / slices.* (modelled by intrinsics that do not
+	// interpret the literal) do not make a function un-inlinable
+	libLit := map[*ast.FuncLit]bool{}
 	ast.Inspect(fi.Body(), func(x ast.Node) bool {
-		switch x.(type) {
-		case *ast.ForStmt, *ast.RangeStmt, *ast.GoStmt, *ast.DeferStmt, *ast.FuncLit, *ast.SelectStmt:
+		if c, isCall := x.(*ast.CallExpr); isCall {
+			if sel, isSel := c.Fun.(*ast.SelectorExpr); isSel {
+				if id, isID := sel.X.(*ast.Ident); isID && (id.Name == "sort" || id.Name == "slices") {
+					for _, a := range c.Args {
+						if l, isLit := a.(*ast.FuncLit); isLit {
+							libLit[l] = true
+						}
+					}
+				}
+			}
+		}
+		return true
+	})
+	ast.Inspect(fi.Body(), func(x ast.Node) bool {
+		switch l := x.(type) {
+		case *ast.FuncLit:
+			if libLit[l] {
+				return false
+			}
+			ok = false
+		case *ast.ForStmt, *ast.RangeStmt, *ast.GoStmt, *ast.DeferStmt, *ast.SelectStmt:
 			ok = false
 		case ast.Stmt:
 			n++
@@ -355,6 +379,7 @@ type FuncReport struct {
 	File        string   `json:"file"`
 	Lines       string   `json:"lines"`
 	Hash        string   `json:"source_sha256"`
+	Locals      []string `json:"-"`
 	Dropped     []string `json:"dropped_constructs,omitempty"`
 	Inlined     []string `json:"inlined_callees,omitempty"`
 	Assumed     []string `json:"assumed_contracts,omitempty"`
@@ -383,6 +408,8 @@ func (e *Engine) VerifyFunc(prop, key string) (rep *FuncReport, obls []*Obligati
 	rep.File = strings.TrimPrefix(pos.Filename, e.repo+"/")
 	rep.Lines = fmt.Sprintf("%d-%d", pos.Line, end.Line)
 	rep.Hash, _ = e.funcSource(fi)
+	localNames, localObjs := e.funcLocals(fi)
+	rep.Locals = localNames
 	if c == nil {
 		c = &FuncContract{Key: key, Loops: map[int]*LoopSpec{}, Flags: map[string]string{}, Asserts: map[int][]*Clause{}}
 	}
@@ -392,6 +419,64 @@ func (e *Engine) VerifyFunc(prop, key string) (rep *FuncReport, obls []*Obligati
 	fc.mayPanicCallsOnly = c.Flags["may_panic"] == "calls"
 	fc.fpMode = c.Flags["mode"] == "fp"
 	fc.retOrd = e.retOrds(fi)
+	// compared with the ledgered tree: did the function's own body change, and if so, is the change (as far as its
+	// locals go) a pure renaming? A contract clause that names a renamed local then follows it.
+	if lh, ok := e.ledHash[key]; ok && !strings.HasPrefix(lh, "out-of-subset") {
+		if strings.SplitN(lh, "+", 2)[0] != rep.Hash {
+			fc.changed = true
+			if old := e.ledLocals[key]; len(old) > 0 {
+				// a local of the ledgered body that is gone is taken to be RENAMED when exactly one new local of the same
+				// type appeared and no other vanished local has that type; anything else is a removal
+				split := func(x string) (string, string) {
+					p := strings.SplitN(x, "|", 2)
+					if len(p) < 2 {
+						return p[0], ""
+					}
+					return p[0], p[1]
+				}
+				oldNames, curNames := map[string]bool{}, map[string]bool{}
+				for _, x := range old {
+					n, _ := split(x)
+					oldNames[n] = true
+				}
+				for _, x := range localNames {
+					n, _ := split(x)
+					curNames[n] = true
+				}
+				goneByType, newByType := map[string][]string{}, map[string][]int{}
+				for _, x := range old {
+					if n, t := split(x); !curNames[n] {
+						dup := false
+						for _, y := range goneByType[t] {
+							if y == n {
+								dup = true
+							}
+						}
+						if !dup {
+							goneByType[t] = append(goneByType[t], n)
+						}
+					}
+				}
+				seenNew := map[string]bool{}
+				for i, x := range localNames {
+					if n, t := split(x); !oldNames[n] && !seenNew[n] {
+						seenNew[n] = true
+						newByType[t] = append(newByType[t], i)
+					}
+				}
+				fc.renames = map[string]types.Object{}
+				fc.renamesRev = map[string]string{}
+				for t, gone := range goneByType {
+					if len(gone) == 1 && len(newByType[t]) == 1 {
+						i := newByType[t][0]
+						nn, _ := split(localNames[i])
+						fc.renames[gone[0]] = localObjs[i]
+						fc.renamesRev[nn] = gone[0]
+					}
+				}
+			}
+		}
+	}
 	defer func() {
 		if r := recover(); r != nil {
 			if o, ok := r.(OutOfSubset); ok {
@@ -521,10 +606,36 @@ func (fc *FCtx) run() {
 	// precondition cover (non-vacuity)
 	cov := &Obligation{Name: fmt.Sprintf("%s/%s/pre-cover", fc.Prop, shortPkg(fi.Key)), Kind: "cover", Assumes: append([]string(nil), st.pc...), Goal: "true", Cover: true, Clause: "requires are satisfiable", Func: fi.Key}
 	fc.Obls = append(fc.Obls, cov)
+	// a contract that names a loop the function does not have is a mistake in the contract (or, in a changed function,
+	// a proof clause gone void)
+	if nl := len(fc.E.loopOrds(fi)); fc.C != nil {
+		for k := range fc.C.Loops {
+			if k >= nl {
+				if fc.changed {
+					fc.note(fmt.Sprintf("contract clauses for loop %d dropped: the changed function has %d loops", k, nl))
+					continue
+				}
+				oos("contract names loop %d but the function has %d loops", k, nl)
+			}
+		}
+	}
 	flow := fc.execBlock(fi.Body().List, st)
 	if fc.C != nil {
+		var keys []string
 		for k := range fc.C.NamedAsserts {
+			keys = append(keys, k)
+		}
+		sort.Strings(keys)
+		for _, k := range keys {
 			if !fc.anchored[k] {
+				if fc.changed {
+					// the function changed and the statement the assert was anchored at is gone: the assert (an
+					// obligation of its own) can no longer be stated, hence is not established
+					for i, a := range fc.C.NamedAsserts[k] {
+						fc.obligeNamed(fc.entry, fmt.Sprintf("assert#%s.%d", strings.Replace(k, ":", "-", 1), i), "assert", "false", "assert "+k+" (its anchor no longer exists): "+a.Src, fi.Body().Lbrace)
+					}
+					continue
+				}
 				oos("assert anchor %q not found in the function body (an unanchored assert would be vacuous)", k)
 			}
 		}
@@ -630,6 +741,11 @@ func (fc *FCtx) run() {
 				} else {
 					goal = "false"
 				}
+			}
+			// ... or the function failed before it reached the call (its last result is a non-nil error and the callee
+			// was not called at all)
+			if n := len(r.vals); n > 0 && isErrorType(fi.Sig.Results().At(n-1).Type()) {
+				goal = fmt.Sprintf("(or %s (and (= %s 0) (not (= %s 0))))", goal, r.st.ghost["fwd@count"].T, r.vals[n-1].T)
 			}
 			fc.obligeNamed(r.st, fmt.Sprintf("forwards@exit%d", r.ord), "post", goal, "forwards "+fw+": returns exactly the results of its one call of "+fw, r.pos)
 		}
@@ -1011,4 +1127,26 @@ func (e *Engine) varInit(o *types.Var) (*packages.Package, ast.Expr) {
 		}
 	}
 	return nil, nil
+}
+
+// funcLocals: the local variables a function declares (parameters and results excluded), in source order, as
+// "name|type" with the objects alongside.
+func (e *Engine) funcLocals(fi *FuncInfo) (names []string, objs []types.Object) {
+	body := fi.Body()
+	if body == nil {
+		return
+	}
+	info := fi.Pkg.TypesInfo
+	ast.Inspect(body, func(n ast.Node) bool {
+		id, ok := n.(*ast.Ident)
+		if !ok || id.Name == "_" {
+			return true
+		}
+		if v, ok := info.Defs[id].(*types.Var); ok && !v.IsField() {
+			names = append(names, id.Name+"|"+typeString(v.Type()))
+			objs = append(objs, v)
+		}
+		return true
+	})
+	return
 }
